@@ -163,6 +163,7 @@ def run(tier, seed, argv):
                       strictness="solver-chosen index: each flat entry removed, each parameter renamed, group key changed")
     rep.assumptions = ["real arithmetic; bit patterns and torch.save serialisation are outside the claim", "generic equality regime of the hyperparameters (thorough adds all regimes for one configuration)",
                        "serial (non-DTensor) state layout; the DDP layout is exercised by C06's simulator"]
+    rep.validate_standin(6 if tier == "quick" else 24)
     rep.absorb("resume", par.run_jobs(jobs, chunk=6))
     return rep.finish("checks.c09")
 
